@@ -15,7 +15,7 @@ use serde_json::{json, Value};
 
 const STREAM: u64 = 10;
 
-const CLASSES: [&str; 28] = [
+const CLASSES: [&str; 31] = [
     "honest",
     "kb-removed",
     "jwt-char",
@@ -44,10 +44,13 @@ const CLASSES: [&str; 28] = [
     "resigned-exp-non-numeric",
     "kb-is-a-disclosure",
     "kb-is-a-forged-disclosure",
+    "kb-nonce-other",
+    "kb-aud-other",
+    "kb-sd_hash-absent",
 ];
 
 pub fn run(ctx: &Ctx) -> Report {
-    let n = ctx.cases(10_000, 400_000);
+    let n = ctx.cases(10_000, 250_000);
     let local = run_cases(ctx, n, |case, l| one_case(ctx, case, l));
     let mut rep = Report::new(
         "exploration",
@@ -285,6 +288,17 @@ fn one_case(ctx: &Ctx, case: u64, l: &mut Local) {
             "kb-sd_hash-other" => {
                 let mut p = kb_payload(&t);
                 p["sd_hash"] = json!(sd_hash_of(&t.jwt, &issued.parts.disclosures[..issued.parts.disclosures.len() / 2]));
+                t.kb = Some(api::sign_kb(halg, 0, &p, Some("kb+jwt")));
+            }
+            "kb-nonce-other" | "kb-aud-other" | "kb-sd_hash-absent" => {
+                let mut p = kb_payload(&t);
+                match class {
+                    "kb-nonce-other" => p["nonce"] = json!(format!("{nonce}-other")),
+                    "kb-aud-other" => p["aud"] = json!(format!("{aud}-other")),
+                    _ => {
+                        p.as_object_mut().map(|o| o.remove("sd_hash"));
+                    }
+                }
                 t.kb = Some(api::sign_kb(halg, 0, &p, Some("kb+jwt")));
             }
             "kb-on-unbound" => t.kb = Some(api::sign_kb(halg, 0, &kb_payload(&t), Some("kb+jwt"))),
